@@ -144,13 +144,15 @@ func runOpOn(r OpReq, ins []tensor.Tensor) Outcome {
 }
 
 // RunOpReused initialises ONE operator instance with the request's attributes,
-// applies it first to every warm-up input list (outcomes ignored, panics
-// recovered) and then to the request's own inputs; the outcome of that last
-// call is returned. An operator instance carries only its attributes, so what
-// it was applied to before must not matter.
-func RunOpReused(r OpReq, warm [][]*ref.T) Outcome {
+// applies it to the request's inputs (outcome `first`), then to every warm-up
+// input list (outcomes ignored, panics recovered) and then to the request's
+// inputs again (outcome `last`). An operator instance carries only its
+// attributes, so what it was applied to before must not matter; and what it
+// returned earlier belongs to the caller: stale reports an output of the first
+// call whose contents changed during the later calls.
+func RunOpReused(r OpReq, warm [][]*ref.T) (last Outcome, first Outcome, stale string) {
 	phase := "lookup"
-	return Capture(&phase, func() ([]tensor.Tensor, error) {
+	last = Capture(&phase, func() ([]tensor.Tensor, error) {
 		op, err := opset13.GetOperator(r.Op)
 		if err != nil {
 			return nil, err
@@ -166,6 +168,17 @@ func RunOpReused(r OpReq, warm [][]*ref.T) Outcome {
 		}
 		if err := op.Init(node); err != nil {
 			return nil, err
+		}
+		var firstFps []Fingerprint
+		first = Capture(nil, func() ([]tensor.Tensor, error) {
+			vin, err := op.ValidateInputs(ToTensors(r.Inputs))
+			if err != nil {
+				return nil, err
+			}
+			return op.Apply(vin)
+		})
+		for _, t := range first.Raw {
+			firstFps = append(firstFps, Fp(t))
 		}
 		for _, w := range warm {
 			ins := ToTensors(w)
@@ -183,8 +196,15 @@ func RunOpReused(r OpReq, warm [][]*ref.T) Outcome {
 			return nil, err
 		}
 		phase = "apply"
-		return op.Apply(vin)
+		out, err := op.Apply(vin)
+		for i, t := range first.Raw {
+			if ok, what := firstFps[i].Equal(Fp(t)); !ok && stale == "" {
+				stale = fmt.Sprintf("output %d returned by the first call changed while the instance served later calls: %s", i, what)
+			}
+		}
+		return out, err
 	})
+	return last, first, stale
 }
 
 // RunOpUpdatedInPlace applies one operator instance twice to the SAME tensor
@@ -194,7 +214,8 @@ func RunOpReused(r OpReq, warm [][]*ref.T) Outcome {
 // The outcome of the second call is returned: what an operator computes may
 // depend on the current contents of its operands only, not on which objects
 // they are or what they held before.
-func RunOpUpdatedInPlace(r OpReq) (Outcome, bool) {
+func RunOpUpdatedInPlace(r OpReq) (Outcome, bool, string) {
+	stale := ""
 	ins := make([]tensor.Tensor, len(r.Inputs))
 	touched := false
 	for i, in := range r.Inputs {
@@ -211,7 +232,7 @@ func RunOpUpdatedInPlace(r OpReq) (Outcome, bool) {
 		ins[i] = ToTensor(w)
 	}
 	if !touched {
-		return Outcome{}, false
+		return Outcome{}, false, ""
 	}
 	phase := "lookup"
 	o := Capture(&phase, func() ([]tensor.Tensor, error) {
@@ -231,19 +252,40 @@ func RunOpUpdatedInPlace(r OpReq) (Outcome, bool) {
 		if err := op.Init(node); err != nil {
 			return nil, err
 		}
-		_ = Capture(nil, func() ([]tensor.Tensor, error) {
+		orig := append([]tensor.Tensor{}, ins...)
+		firstCall := Capture(nil, func() ([]tensor.Tensor, error) {
 			vin, err := op.ValidateInputs(ins)
 			if err != nil {
 				return nil, err
 			}
 			return op.Apply(vin)
 		})
-		// the caller overwrites the contents of its tensors
+		var firstFps []Fingerprint
+		for _, t := range firstCall.Raw {
+			firstFps = append(firstFps, Fp(t))
+		}
+		defer func() {
+			// what the first call returned belongs to the caller: it must not change when the
+			// instance is applied again (unless it IS one of the operands the caller overwrote)
+			for i, t := range firstCall.Raw {
+				alias := false
+				for _, o := range orig {
+					if o != nil && o == t {
+						alias = true
+					}
+				}
+				if ok, what := firstFps[i].Equal(Fp(t)); !ok && !alias && stale == "" {
+					stale = fmt.Sprintf("output %d returned by the first call changed during the second call: %s", i, what)
+				}
+			}
+		}()
+		// the caller overwrites the contents of ITS tensors (the objects it created) and
+		// passes the very same list again
 		for i, in := range r.Inputs {
 			if in == nil || len(in.Bits) == 0 {
 				continue
 			}
-			if !Overwrite(ins[i], in) {
+			if !Overwrite(orig[i], in) {
 				return nil, fmt.Errorf("harness: cannot overwrite operand %d in place", i)
 			}
 		}
@@ -256,9 +298,9 @@ func RunOpUpdatedInPlace(r OpReq) (Outcome, bool) {
 		return op.Apply(vin)
 	})
 	if o.Kind == Error && strings.HasPrefix(o.Err.Error(), "harness:") {
-		return o, false
+		return o, false, ""
 	}
-	return o, true
+	return o, true, stale
 }
 
 // Overwrite copies the values of v into the existing backing of t (same type,
